@@ -102,6 +102,21 @@ func mkArg(list []string, spare int) *argSlice {
 	return &argSlice{arg: backing[:n], snap: snap}
 }
 
+func (a *argSlice) refill(list []string) {
+	full := a.arg[:cap(a.arg)]
+	n := len(list)
+	a.snap = make([]string, len(full))
+	for i := range full {
+		if i < n {
+			full[i] = strings.Clone(list[i])
+		} else {
+			full[i] = fmt.Sprintf("%s%d", sentinel, i)
+		}
+		a.snap[i] = strings.Clone(full[i])
+	}
+	a.arg = full[:n]
+}
+
 func (a *argSlice) changed() string {
 	full := a.arg[:cap(a.arg)]
 	if len(full) != len(a.snap) {
@@ -127,6 +142,8 @@ type retained struct {
 }
 
 type taskState struct {
+	lastArg  *argSlice // the task's previous private argument slice (for buffer reuse)
+	reused   int
 	viol     []proto.Violation
 	retained []retained
 	panics   int
@@ -226,6 +243,7 @@ func execRun(rec *proto.RunRec, free bool) runOutcome {
 		out.stats.panics += st.panics
 		out.stats.scribA += st.scribA
 		out.stats.scribR += st.scribR
+		out.stats.reused += st.reused
 		out.stats.ops += st.ops
 		for _, rt := range st.retained {
 			if fp := rt.res.fingerprint(); fp != rt.fp {
@@ -265,8 +283,17 @@ func doOp(task int, op *proto.Op, shared map[int]*argSlice, st *taskState) {
 	if hasList(op.Fn) && !op.NilList {
 		if op.Share >= 0 {
 			a = shared[op.Share]
+		} else if op.ReuseBuf && st.lastArg != nil && cap(st.lastArg.arg) >= len(op.List) {
+			// the caller refills a buffer it used for an earlier call (same slice object,
+			// same backing array, new contents) - legitimate: it owns the slice
+			a = st.lastArg
+			a.refill(op.List)
+			st.reused++
 		} else {
 			a = mkArg(op.List, op.Spare)
+		}
+		if op.Share < 0 {
+			st.lastArg = a
 		}
 		arg = a.arg
 	}
